@@ -10,6 +10,12 @@ CLAIMED = {
  "C02": ("model_checking", "CrossHair/z3 symbolic execution of real inspection+validation followed by the real run on the same symbolic configuration (soundness implication + per-node truthfulness), unit obligations tying inspect_origin/_is_compatible/unknown-parameter classification to their run-time counterparts",
          "Bounded symbolic implication check per shape template: whenever build_pipeline_inspection+validate_pipeline accept and the (symbolic) initial context contains the reported required keys, the real run has no path that fails on flow; with exactly the required keys, reported created/suppressed keys and parameter origins are compared with the recorded per-node context and the values the components received, for all values.",
          "Trusted: as C01; precondition that the initial payload type fits the first data node; flow failure classified by exception class+message. One open known finding (origin 'default' vs initial context) is listed in known_findings.json.", "4 C02"),
+ "C03": ("model_checking", "CrossHair/z3 symbolic execution of the real sweep machinery: _iterate_sweep/_materialize_sequences/_convert_var_specs as units, and generated sweep classes run through the real Pipeline with symbolic sequences, modes and parameter placements",
+         "Bounded symbolic check: the whole step list of _iterate_sweep is compared with the documented order for 1..3 variables with symbolic lists (length 1..3, thorough 4), both modes, broadcast on/off; sweep classes produced by derive.parameter_sweep for source/operation/probe are executed through the real Pipeline over 5 expressions with symbolic sequences (config and from_context), symbolic mode/broadcast and symbolic placement of the non-swept parameter; elements, call parameters (computed > node > default), collection type, probe pass-through and every published <var>_values are asserted for all values.",
+         "Trusted: CrossHair/z3 models; stubs as C01 (sequence-domain digest stubbed); integer payloads; log ranges and non-integer linear grids are outside (numpy transcendental functions).", "4 C03"),
+ "C08": ("model_checking", "CrossHair/z3 symbolic execution of the real expand_run_space/_expand_entries against a reference, with list lengths, modes at three levels, select/rename choices and max_runs symbolic; counting itertools.product for the 'without materialising' clause",
+         "Bounded symbolic differential check of run-space expansion: run list and order, key union, meta counts, every documented rejection (unequal lengths, duplicates within/across blocks/after rename, missing selected column) and the max-runs error iff size > max_runs with the true size, for all list contents and lengths within the bound; the work done before a max-runs rejection is bounded by a linear budget through a counting product.",
+         "Trusted: CrossHair/z3 models; external sources enter as symbolic columns through a stubbed _load_source_file (file parsers outside). Open known finding: in-block product materialised before the cap.", "4 C08"),
  "C11": ("model_checking", "CrossHair/z3 symbolic execution of the real _SafeVisitor: one local lemma per AST node class (structural induction) + symbolic compile() sequences",
          "Bounded symbolic check: for every node class of the interpreter's expression grammar the solver explores all paths of the real visitor over symbolic child counts (0..2), optional-field flags and identifier strings (len<=8) and shows that a normal return implies whitelist membership, declared names, listed call targets and that every child position was visited; by induction over the tree this covers expressions of any depth. compile() is checked as a unit over a 16x6 table with symbolic indices, symbolic variable values and 2-call histories.",
          "Trusted: CPython ast/compile/eval, CrossHair 0.0.110 + z3 5.1 models of int/str/list; the whitelist constant frozen in the harness; bounds: list fields <=2 children, identifiers <=8 chars, expression texts limited to the table.", "4 C11"),
